@@ -79,7 +79,8 @@ def gen(draw):
     if draw(st.integers(0, 7)) == 0:
         tree = ['limit', draw(st.integers(1, 5)), tree if draw(st.booleans()) else None]
     n = draw(st.integers(0, 8))
-    items = [draw(st.integers(-4, 9)) for _ in range(n)]
+    # ints plus a few equal-but-distinguishable values (1 / 1.0 / True, 2 / 2.0, 0 / 0.0 / False): ties must go to the first
+    items = [draw(st.sampled_from(list(range(-4, 10)) + [1.0, 2.0, 0.0, True, False, 4.0])) for _ in range(n)]
     nest = draw(st.sampled_from(['plain', 'plain', 'rows', 'sum-of-groups']))
     if nest == 'sum-of-groups' and not (tree[0] == 'leaf' and tree[1] in ('count', 'sum', 'max', 'min')):
         nest = 'plain'
@@ -188,6 +189,8 @@ def has_agg(r):
 
 def same_with_order(a, b):
     if type(a) is not type(b):
+        return False
+    if isinstance(a, float) and repr(a) != repr(b):
         return False
     if isinstance(a, dict):
         return list(a.keys()) == list(b.keys()) and all(same_with_order(a[k], b[k]) for k in a)
